@@ -471,6 +471,9 @@ type evidence struct {
 }
 
 func (c *Ctx) finish(start time.Time, explanation string, assumptions []string, seed int) int {
+	if assumptions == nil {
+		assumptions = []string{} // the evidence schema wants a list
+	}
 	vd := verifDir()
 	os.MkdirAll(filepath.Join(vd, "evidence", "replay"), 0o755)
 	counts := map[Verdict]int{}
